@@ -61,12 +61,33 @@
 //! `defsrc-fallback+override-modifier-stripped-by-unmod` only for a transparent cell, an unmod key
 //! pressed in the window, an override with an input modifier on the defsrc key and the defsrc key
 //! itself down.
+//!
+//! Layer-stack family (`c14_stack.rs`, the cases after the main family): the private alphabets above
+//! make it impossible that a key which a LOWER layer of the stack lists for a physical key is down
+//! through ANOTHER physical key. The second family therefore draws every cell of 4 physical keys
+//! (a s d f) on 2-4 layers from one shared pool of 6 output keys (a s d f j k): identity cells (the key
+//! mapped to itself, as key name or `use-defsrc`), other plain keys, output chords, `multi`,
+//! transparent, `XX`; half of the configurations have a base layer that permutes the physical keys
+//! (Dvorak-like base under qwerty-like held layers). Layers are activated by `layer-while-held` /
+//! `layer-toggle` keys (0-3 held layers over base layer l0 or, after `layer-switch`, l1), 1-4 physical
+//! keys are held together, repeats go mostly to the most recently pressed key. All cells are
+//! unconditional, so the first non-transparent cell of the stack (held layers newest first, base layer,
+//! defsrc key) says which keys the press put down; while one of them is down the repeat must be exactly
+//! one repeat of one of THOSE keys (`C14:layer-stack:repeat-dropped`,
+//! `C14:layer-stack:repeat-for-output-of-cell-below-the-effective-layer`,
+//! `C14:layer-stack:repeat-for-output-of-cell-on-inactive-layer`, `C14:layer-stack:repeat-of-foreign-key`,
+//! `C14:layer-stack:repeat-of-modifier-instead-of-key` for output chords). A systematic, seed-independent
+//! part enumerates all 7^3 kind triples for one key on l2/l1/l0 x both layer action names x every stack
+//! over l0 x {other key held first, alone, other key pressed after}.
 
 use crate::core::rng::Rng;
 use crate::core::sim::{code_name, osc, render_hist, Ev, OutKind, Sim};
 use crate::core::{CaseOut, Check, Ctx};
 use serde_json::{json, Value};
 use std::collections::BTreeSet;
+
+#[path = "c14_stack.rs"]
+mod c14_stack;
 
 pub struct C14Check;
 pub static C14: C14Check = C14Check;
@@ -1421,20 +1442,37 @@ fn known_witness_case(out: &mut CaseOut) {
 
 const N_SYSTEMATIC: u64 = 64;
 
+/// cases of the main family (private output alphabets); the layer-stack family follows
+fn n_main(ctx: &Ctx) -> u64 {
+    ctx.tier.sel(20_000, 300_000)
+}
+/// random cases of the layer-stack family (after its systematic part)
+fn n_stack_random(ctx: &Ctx) -> u64 {
+    ctx.tier.sel(5_000, 60_000)
+}
+
 impl Check for C14Check {
     fn id(&self) -> &'static str {
         "C14"
     }
     fn n_cases(&self, ctx: &Ctx) -> u64 {
-        ctx.tier.sel(20_000, 300_000)
+        n_main(ctx) + c14_stack::N_SYSTEMATIC + n_stack_random(ctx)
     }
     fn describe(&self, ctx: &Ctx, idx: u64) -> Value {
+        if idx >= n_main(ctx) {
+            return c14_stack::describe(ctx.seed, idx - n_main(ctx), idx);
+        }
         let mut rng = Rng::for_case(ctx.seed, "C14", "cfg", idx);
         let cfg = make_cfg(&mut rng, if idx < N_SYSTEMATIC { Some(idx as usize) } else { None });
         json!({"config": cfg.text})
     }
     fn run_case(&self, ctx: &Ctx, idx: u64) -> CaseOut {
         let mut out = CaseOut::new();
+        if idx >= n_main(ctx) {
+            // the layer-stack family (shared output pool, identity cells on held layers)
+            c14_stack::run_case(&mut out, ctx.seed, idx - n_main(ctx), idx, ctx.tier.sel(4, 6), ctx.verbose);
+            return out;
+        }
         if idx == 0 {
             known_witness_case(&mut out);
         }
@@ -1509,7 +1547,7 @@ impl Check for C14Check {
         out
     }
     fn rule(&self) -> String {
-        "case = one configuration with three judged physical keys (each with a private output alphabet of 6 letters, 2 modifiers and 2 override outputs) whose cells on 1-3 layers are random key-producing actions nested to depth 3 (plain key, modifier key, output chord, multi, 7 tap-hold variants, tap-dance lazy/eager, 5 one-shot variants, fork, switch with break/fallthrough and key/input/layer conditions, unmod, unshift, use-defsrc, transparent, chords v1, chords v2), optional defoverrides inside the alphabets (1-5 entries; input key drawn 3:1 from the keys the judged cells list; output a private override key or, 1 in 3, another letter of the alphabet; input modifier none / one of the alphabet's two / the context modifier lmet; 2 of 5 override configurations contain a chain K1->K2, K2->K3 [, K3->K4] with pairwise different input modifiers, K1 and K2 3:1 two keys that one judged cell lists, in either order, the second link on lmet half of the time; 1 of 5 override configurations: one judged key transparent on the base layer / 2 of 3 on every layer with 1-3 overrides on its defsrc key [modifier-only change, foreign output z|x, private output]; every random override 1 in 12 keeps its key and only changes modifiers, 1 in 6 outputs z or x, which the context keys z and x hold down by themselves), chords v2 = 2-4 of the chords (q w) (w e) (q e) (q w e) in random definition order, each with its own output key and release behaviour, 3 of 4 configurations with a random disabled-layers list per chord (each layer 1 in 3), context keys (z, x, lmet, two layer-while-held keys, layer-switch keys, sequence leader with three input modes), x 6 (quick) / 10 (thorough) history windows: context set up, then 4-17 random steps (press a judged key from a settled state or immediately after another, repeats of held judged keys singly and in bursts, repeats of context keys, the other key x, releases followed by a stray repeat, repeats of keys that are not held, waits of 1 tick / below / at / beyond the timeouts). Safety (at most one output on the raw output stream of the Repeat event, a repeat, of a key that is down) is judged at every repeat, completeness when the precondition in the module header holds. Non-trivial = a repeat that was judged for completeness; distinct = (action shape of the effective cell, layer context, overrides).".into()
+        "case = one configuration with three judged physical keys (each with a private output alphabet of 6 letters, 2 modifiers and 2 override outputs) whose cells on 1-3 layers are random key-producing actions nested to depth 3 (plain key, modifier key, output chord, multi, 7 tap-hold variants, tap-dance lazy/eager, 5 one-shot variants, fork, switch with break/fallthrough and key/input/layer conditions, unmod, unshift, use-defsrc, transparent, chords v1, chords v2), optional defoverrides inside the alphabets (1-5 entries; input key drawn 3:1 from the keys the judged cells list; output a private override key or, 1 in 3, another letter of the alphabet; input modifier none / one of the alphabet's two / the context modifier lmet; 2 of 5 override configurations contain a chain K1->K2, K2->K3 [, K3->K4] with pairwise different input modifiers, K1 and K2 3:1 two keys that one judged cell lists, in either order, the second link on lmet half of the time; 1 of 5 override configurations: one judged key transparent on the base layer / 2 of 3 on every layer with 1-3 overrides on its defsrc key [modifier-only change, foreign output z|x, private output]; every random override 1 in 12 keeps its key and only changes modifiers, 1 in 6 outputs z or x, which the context keys z and x hold down by themselves), chords v2 = 2-4 of the chords (q w) (w e) (q e) (q w e) in random definition order, each with its own output key and release behaviour, 3 of 4 configurations with a random disabled-layers list per chord (each layer 1 in 3), context keys (z, x, lmet, two layer-while-held keys, layer-switch keys, sequence leader with three input modes), x 6 (quick) / 10 (thorough) history windows: context set up, then 4-17 random steps (press a judged key from a settled state or immediately after another, repeats of held judged keys singly and in bursts, repeats of context keys, the other key x, releases followed by a stray repeat, repeats of keys that are not held, waits of 1 tick / below / at / beyond the timeouts). Safety (at most one output on the raw output stream of the Repeat event, a repeat, of a key that is down) is judged at every repeat, completeness when the precondition in the module header holds. Non-trivial = a repeat that was judged for completeness; distinct = (action shape of the effective cell, layer context, overrides). LAYER-STACK FAMILY (the cases after the 20 000 / 300 000 of the main family): 686 systematic cases (seed-independent, enumerated completely: two physical keys, a mapped to itself everywhere, the cell of s on l2 / l1 / l0 over all 7^3 triples of {s, use-defsrc, a, S-a, (multi s a), _, XX} x {layer-while-held, layer-toggle}, each with the stacks {}, {l1}, {l2}, {l1 l2}, {l2 l1} over l0 x {a held first, s alone, a pressed after s}: repeats of s (twice), of a, of s after a was released, of s after its release) + 5 000 / 60 000 random cases = one configuration with 4 physical keys a s d f on 2-4 layers whose cells are drawn from the shared output pool a s d f j k (upper layers: identity 28, other plain key 24, transparent 16, output chord 10, multi 8, use-defsrc 8, XX 6; base layer: other plain key 45, identity 22, ...; half of the configurations: base layer = permutation of the physical keys), layer keys f1-f3 = layer-while-held or layer-toggle (per key), layer-switch keys, x 4 / 6 windows: optional layer-switch to l1 (1 in 4), 0-3 layer keys held in random order, then 6-17 steps (press a free key, repeats singly or in bursts - 3 of 4 for the most recently pressed key -, release with an optional stray repeat, waits). Judged: safety always; if a key of the cell that resolves the press in the guide's model (first non-transparent cell: held layers newest first, base layer, defsrc key) is down, exactly one repeat for one of the cell's keys, for an output chord not a modifier while the chord's key is down.".into()
     }
     fn assumptions(&self) -> Vec<String> {
         vec![
@@ -1521,6 +1559,8 @@ impl Check for C14Check {
             "the judged keys' own actions contain no layer actions, so the layer stack between press and repeat changes only through the context keys, which are not touched inside a window".into(),
             "completeness is not judged while kanata is in sequence mode, for keys pressed while a decision was pending or a one-shot was active, or when nothing of the key's alphabet is down".into(),
             "the 'last-listed key rather than a modifier' clause is judged only for keys whose actions (on every layer) use modifiers exclusively as output-chord prefixes".into(),
+            "layer-stack family: only unconditional cells (plain key, use-defsrc, output chord, multi of keys, transparent, XX) are generated, so the configuration guide alone says which keys a press put down: those of the first non-transparent cell in the stack (held layers newest first, then the base layer, then the defsrc key); layer-toggle is the guide's other name of layer-while-held; delegate-to-first-layer is left at its default (no). The layer stack is set up before the first judged key is pressed and not changed inside a window".into(),
+            "layer-stack family: a key whose effective cell is XX put nothing down - the statement does not say what its repeat does (on the tree it may be forwarded for a key that a lower layer lists and another key holds); counted, not judged. As in the main family, completeness needs something the key put down to be still down: a key pressed later releases the modifiers of an output chord (counted as judged_with_part_of_effective_cell_released); if nothing of the effective cell is down the repeat is not judged (counted)".into(),
             "allow-hardware-repeat is applied by the OS layer (linux.rs), not by handle_input_event, and is therefore not exercised".into(),
         ]
     }
@@ -1579,6 +1619,28 @@ impl Check for C14Check {
             ("repeats_of_fallthrough_key_down_with_override_that_only_changes_modifiers", 1_000 * s),
             ("repeats_of_fallthrough_override_input_forwarded_exactly_once", 1_200 * s),
             ("minimal_unmod_override_witness_runs", 1),
+            // layer-stack family
+            ("stack_systematic_configs", 686),
+            ("stack_repeats_injected", 150_000 * s),
+            ("stack_completeness_judged", 120_000 * s),
+            ("stack_judged_depth_2", 50_000 * s),
+            ("stack_judged_depth_3", 30_000 * s),
+            ("stack_judged_depth_4", 6_000 * s),
+            ("stack_judged_effective_cell_identity", 40_000 * s),
+            ("stack_judged_effective_cell_use-defsrc", 10_000 * s),
+            ("stack_judged_effective_cell_on_layer-while-held_layer", 40_000 * s),
+            ("stack_judged_effective_cell_on_layer-toggle_layer", 40_000 * s),
+            ("stack_judged_with_two_or_more_physical_keys_held", 80_000 * s),
+            ("stack_judged_on_switched_base_layer", 20_000 * s),
+            ("stack_judged_through_transparent_held_layer", 4_000 * s),
+            ("stack_judged_lower_layer_output_down_via_other_key", 18_000 * s),
+            ("stack_judged_inactive_layer_output_down_via_other_key", 10_000 * s),
+            ("stack_judged_identity_cell_on_held_layer_lower_layer_output_down_via_other_key", 6_000 * s),
+            ("stack_judged_identity_cell_on_layer-while-held_layer_lower_layer_output_down_via_other_key", 3_000 * s),
+            ("stack_judged_identity_cell_on_layer-toggle_layer_lower_layer_output_down_via_other_key", 3_000 * s),
+            ("stack_judged_identity_cell_on_held_layer_lower_layer_output_down_via_other_key_depth_2", 2_500 * s),
+            ("stack_judged_identity_cell_on_held_layer_lower_layer_output_down_via_other_key_depth_3", 2_500 * s),
+            ("stack_judged_identity_cell_on_held_layer_lower_layer_output_down_via_other_key_depth_4", 600 * s),
         ]
     }
 }
